@@ -177,6 +177,12 @@ def plan(pid, tier, seed):
     elif pid in ("C03", "C05"):
         mc("MC_Conc", "MC_Crash_q.cfg" if q else "MC_Crash_t.cfg", 1200 if q else 10000, pick=pick_recovering,
            timeout=900 if q else 3000)
+        if pid == "C05":
+            # a crash may also interrupt the recovery itself (after each of its file-modifying calls)
+            mc("MC_Conc", "MC_RCrash_q.cfg" if q else "MC_RCrash_t.cfg", 300 if q else 3000,
+               pick=lambda behs, cap, r: r.sample([b for b in behs if any(st["a"] == "crash_in_open" for st in b)] or behs,
+                                                  min(cap, len([b for b in behs if any(st["a"] == "crash_in_open" for st in b)] or behs))),
+               timeout=900 if q else 3000)
         crash_runs(36 if q else 400, 14 if q else 40)
         P["need"] = dict(probes=3000, crashes=500)
     elif pid in ("C09", "C10"):
